@@ -24,7 +24,9 @@ RULE = ('Hypothesis settings files as in C13 plus a fault mix (one input whose d
         'with a fault mix rows == number of recorded samples inside the valid range is checked on the surviving rows and the '
         'expected survivor count is bounded statistically; (iii) min/max/median/mean/std block equals numpy recomputation at the '
         'printed 2 decimals and the .json equals the text block. Non-trivial = >= 10 rows and >= 2 outputs, or a fault-mix run '
-        'with >= 1 failed and >= 1 successful iteration.')
+        'with >= 1 failed and >= 1 successful iteration. One case in three with >= 2 workers runs under an injected schedule fault: '
+        'the row append is made non-atomic (2-5 pieces, flushed, 1-5 ms pauses) so concurrent appends overlap in time unless the '
+        'writer excludes them; the same grammar / row-count / replay clauses then decide "never torn or interleaved".')
 ASSUMPTIONS = ['outputs are labels occurring exactly once in the base report (a label matching twice is skipped by the driver: domain restriction)',
                'survivor-count bound under the fault mix: exact binomial 1e-9 lower quantile (a failing iteration must not take other iterations down)']
 
@@ -52,6 +54,12 @@ def cases(draw, tier):
         s['extra_base'] = extra
         if out not in s['outputs']:
             s['outputs'] = [out] + s['outputs'][:2]
+    s['slow_writes'] = None
+    if s['workers'] > 1 and draw(st.integers(0, 2)) == 0:
+        # schedule fault: non-atomic row appends (pieces, pause in ms) - concurrent appends now overlap in time unless excluded
+        s['slow_writes'] = [draw(st.integers(2, 5)), draw(st.sampled_from([1, 2, 5]))]
+        if not fault:
+            s['iterations'] = max(s['iterations'], draw(st.integers(24, 60)))
     if fault:
         # many cheap iterations give the survivor-count bound its power
         s['iterations'] = draw(st.integers(80, 200 if tier == 'quick' else 400)) if s['program'] == 'HIP' else draw(st.integers(30, 60))
@@ -103,8 +111,8 @@ def extract(report, label):
 def evaluate(s, rec):
     worker.init_worker()
     d = tempfile.mkdtemp(prefix='c14-', dir=worker.scratch_dir())
-    case = {k: s.get(k) for k in ('program', 'inputs', 'outputs', 'iterations', 'workers', 'fault', 'final_newline', 'extra_base')}
-    sig = dict(program=s['program'])
+    case = {k: s.get(k) for k in ('program', 'inputs', 'outputs', 'iterations', 'workers', 'fault', 'final_newline', 'extra_base', 'slow_writes')}
+    sig = dict(program=s['program'], slow_writes=bool(s.get('slow_writes')))
 
     def bad(clause, detail, **extra):
         rec.violation(clause, case, detail, **sig, **extra)
@@ -129,6 +137,8 @@ def evaluate(s, rec):
         labels = [f'program:{s["program"]}', f'workers:{s["workers"]}', 'fault_mix' if fault else 'no_fault']
         if s.get('extra_base'):
             labels.append('sampled_name_is_prefix_of_another_parameter')
+        if s.get('slow_writes'):
+            labels.append('non_atomic_row_appends_injected')
         nt = (len(rows) >= 10 and len(s['outputs']) >= 2) or bool(fault and 0 < len(rows) < s['iterations'])
         rec.case(case, nontrivial=nt, labels=labels, key=case,
                  sample={'settings': mc.settings_text(s).splitlines(), 'workers': s['workers'], 'rows': len(rows), 'fault': fault})
